@@ -25,6 +25,20 @@ MODULES = sc.MODULES + ["Static"]
 GEN_OBLIGATIONS = ["slot_flags", "static_flags"]
 
 
+_SCRATCH = []
+
+
+def _scratch():
+    import atexit, os, shutil, tempfile
+    if not _SCRATCH:
+        base = os.path.join(common.VERIF, ".scratch")
+        os.makedirs(base, exist_ok=True)
+        d = tempfile.mkdtemp(prefix="C20-", dir=base)
+        _SCRATCH.append(d)
+        atexit.register(lambda: shutil.rmtree(d, ignore_errors=True))
+    return _SCRATCH[0]
+
+
 # ------------------------------------------------------------------ (1) static slots
 def gen_static(rng):
     ops = []
@@ -36,11 +50,17 @@ def gen_static(rng):
             ops.append(["pull", rng.choice([None, 0, 3, 17, 1000])])
         else:
             ops.append(["get", rng.choice([None, 0, 5, 99])])
-    return {"part": "static", "ops": ops}
+    case = {"part": "static", "ops": ops}
+    if rng.random() < 0.3:
+        case["mem_limit"] = rng.choice([0, 0, 8, 16])   # the static payload may live in a spill file
+    return case
 
 
 def run_static(case):
     out = fm.Output(name="out", static=True, info=fm.Info(time=None, grid=fm.NoGrid(), units=""))
+    if case.get("mem_limit") is not None:
+        out.memory_limit = case["mem_limit"]
+        out.memory_location = _scratch()
     sin = fm.Input(name="sin", static=True, info=fm.Info(time=None, grid=fm.NoGrid(), units=""))
     nin = fm.Input(name="nin", static=False, info=fm.Info(time=None, grid=fm.NoGrid(), units=""))
     out >> sin
@@ -71,6 +91,10 @@ def run_static(case):
         except Exception as e:  # noqa
             res.append({"err": err_class(e)})
     res.append({"static_input_fetches": sum(1 for f in fetches if f)})
+    try:
+        out.finalize()   # removes a spill file, if any
+    except Exception:  # noqa
+        pass
     return res
 
 
